@@ -102,6 +102,12 @@ CHECKS = {
         "Copy is followed by a mutation of every container of the copy (and of the original) with the other side compared. Concurrency: TLA+ specification MxjConc of G goroutines x programs x gate segments; TLC checks for every interleaving that the shared Map is "
         "never written, results equal sequential results, and termination; every interleaving is then ENFORCED on real goroutines parked at the gate hook (build tag verif) and the results / shared Map compared, under a -race build, plus free-running stress (8 goroutines) where the race detector reports memory-level races.",
    ref="DESIGN.md section 4, C17", technique="TLA+ interleaving spec (TLC exhaustive), schedule replay with goroutine gates under the Go race detector, purity replay"),
+ "C15": dict(
+   text="(a) Character-level TLA+ specification MxjArgs of the path, sub-key, new-value and key-pair languages (split rules, index parsing, type names, error classes); TLC enumerates every string of <= N chunks over the significant characters "
+        "and evaluates all operators (totality of the specification) on a Map with empty keys; every string is applied to every string-taking method under recover: a panic is a violation, the error class and (for paths) the values must agree. "
+        "(b) Token-level corruptions (delete, duplicate, swap, stray end tag) of the document builder's documents with the specification's class of the first document (ok / err / eof), cross-checked against an independent encoding/xml Token loop, and for each "
+        "document every byte-level truncation, deletion and nine substitutions per position classified by that loop; applied to eight XML decoder forms, the bulk handlers and BeautifyXml (no panic, class agrees, no partial Map, returned Maps encode without panic); JSON and gob inputs likewise.",
+   ref="DESIGN.md section 4, C15", technique="TLA+ character-level argument parsers + token-level corruption classes (TLC enumeration), replay under recover with stdlib tokenizers as second oracle"),
 }
 NOT_YET = "machinery for this property is not built yet in this round (design in DESIGN.md section 4); no claim is made"
 
